@@ -22,7 +22,9 @@ pub struct EnumBudget {
 pub fn budget(tier: Tier) -> EnumBudget {
     match tier {
         Tier::Quick => EnumBudget { programs: 16, bound: 2, max_steps: 140, cap_per_program: 1500 },
-        Tier::Thorough => EnumBudget { programs: 480, bound: 3, max_steps: 160, cap_per_program: 40_000 },
+        // (480 programs x 40 000 schedules made the thorough tier of the histogram properties run for hours once their programs had
+        // 100+ buckets: a collection over them is hundreds of atomic steps)
+        Tier::Thorough => EnumBudget { programs: 120, bound: 3, max_steps: 160, cap_per_program: 12_000 },
     }
 }
 
